@@ -88,6 +88,72 @@ def format_groups(b):
         yield bb, ln, d, args
 
 
+def _template_holes(tmpl):
+    """[(char before, char after)] for every placeholder of a compiler format template (`b"\\x01<\\xc0\\x01>\\x00"`)"""
+    import ast
+    m = re.match(r'^(?:const )?(b".*")$', tmpl, re.S)
+    if not m:
+        return None
+    try:
+        raw = ast.literal_eval(m.group(1))
+    except Exception:
+        return None
+    # tokens: n (<0x80) + n literal bytes | 0xc0 placeholder | 0x00 end
+    pieces, i = [], 0
+    while i < len(raw):
+        b0 = raw[i]
+        if b0 == 0:
+            break
+        if b0 == 0xC0:
+            pieces.append(None)
+            i += 1
+            continue
+        if b0 < 0x80:
+            pieces.append(raw[i + 1:i + 1 + b0].decode("utf-8", "replace"))
+            i += 1 + b0
+            continue
+        # other argument markers (positional / formatted): treat as placeholder, skip its parameter bytes conservatively
+        pieces.append(None)
+        i += 1
+    holes = []
+    for j, pc in enumerate(pieces):
+        if pc is None:
+            left = pieces[j - 1][-1:] if j > 0 and pieces[j - 1] else ""
+            right = pieces[j + 1][:1] if j + 1 < len(pieces) and pieces[j + 1] else ""
+            holes.append((left, right))
+    return holes
+
+
+def _char_consts(prog, b):
+    """character constants a predicate compares with / matches on (None when it has none): its character class, roughly"""
+    out = set()
+    for x in prog.family(b.key):
+        for bb, t in x.terms():
+            if t["t"] == "switch" and "char" in x.local_ty((F.op_place(t["discr"]) or {"l": 0})["l"]):
+                for v, tg in t["targets"]:
+                    try:
+                        out.add(int(v))
+                    except Exception:
+                        pass
+        for bb, i, pl, rv, st in x.assigns():
+            for o in F.rv_operands(rv):
+                if o.get("k") == "const" and o.get("ty") == "char":
+                    try:
+                        out.add(int(o.get("v")))
+                    except Exception:
+                        pass
+        for c in x.calls():
+            for a in c.args:
+                if a.get("k") == "const" and a.get("ty") == "char":
+                    try:
+                        out.add(int(a.get("v")))
+                    except Exception:
+                        pass
+                for sx in F.const_strs(a) if a.get("k") == "const" else []:
+                    pass
+    return out or None
+
+
 def from_call(b, op, name, depth=0):
     if depth > 10:
         return False
@@ -381,6 +447,51 @@ def run(R):
                 R.ob("C14-R7", "bare:%d" % nbare, "generate_turtle writes a term without delimiters only under `starts_with(\"<<\")`", ok, where=x.where(c.ln),
                      detail=None if ok else "undelimited text that is not a quoted triple is cut at `.`, `,` or `;` by tokenize_turtle_star_line on re-import")
         R.floor("C14-R7", "undelimited term writes in generate_turtle", nbare, 2)
+        # format templates: a placeholder that is not wrapped in <..> or quotes writes its argument bare. Allowed for the prefix label of a
+        # declaration; an argument that comes from a parameter (a term handed to a helper closure / function) must have been checked against a
+        # character class that contains none of the tokenizer's punctuation characters
+        ntm = 0
+        for x in prog.family(gt7.key):
+            for bb, ln, tmpl, args in format_groups(x):
+                holes = _template_holes(tmpl)
+                if holes is None:
+                    continue
+                ntm += 1
+                for i, (left, right) in enumerate(holes):
+                    if (left, right) in (("<", ">"), ('"', '"')):
+                        continue
+                    if i >= len(args) or not args[i].args:
+                        continue
+                    pl = F.op_place(args[i].args[0])
+                    if pl is None:
+                        continue
+                    from lib import pipeline as P
+                    d = P.derives(prog, x, pl["l"])
+                    from_param = any(t[0] == "param" for t in d) and x.is_closure
+                    if not from_param:
+                        continue
+                    # guards: predicates called on the way whose character class excludes . , ;
+                    safe = False
+                    for t in d:
+                        pass
+                    for cd in G.conditions(x, args[i].bb):
+                        if cd.get("kind") == "call" and cd["call"].key in prog.bodies and cd.get("truth") is True:
+                            chars = _char_consts(prog, prog.bodies[cd["call"].key])
+                            if chars is not None and not (chars & {46, 44, 59}):
+                                safe = True
+                    # a predicate applied inside a filter_map / then closure: look at every workspace predicate the family calls on the text
+                    topk = x.key
+                    while topk.rsplit("::{closure#", 1)[0] != gt7.key and "::{closure#" in topk:
+                        topk = topk.rsplit("::{closure#", 1)[0]
+                    preds = [prog.bodies[c.key] for y in prog.family(topk if topk in prog.bodies else x.key) for c in y.calls() if c.key in prog.bodies and prog.bodies[c.key].local_ty(0) == "bool"
+                             and prog.bodies[c.key].file.endswith("sparql_database.rs")]
+                    if preds and all((_char_consts(prog, pb) is not None and not (_char_consts(prog, pb) & {46, 44, 59})) for pb in preds):
+                        safe = True
+                    R.ob("C14-R7", "bare-template:%s:%d" % (x.name if not x.is_closure else "closure", ln or 0),
+                         "generate_turtle writes a term through an undelimited format placeholder only after excluding `.`, `,` and `;`", safe, where=x.where(ln),
+                         detail=None if safe else "the template writes its argument without <..> or quotes and the text may contain `.`, `,` or `;` "
+                         "(e.g. `ex:report.pdf`): tokenize_turtle_star_line cuts it there on re-import")
+        R.floor("C14-R7", "format templates in generate_turtle", ntm, 3)
     # ---- R6 decode once
     R.rule("C14-R6", "a term is decoded once: what a loader's term cleaner returns (IRI without brackets, literal decoded to its lexical value) is "
                      "stored as it is - it is not handed to a function that interprets surface syntax again (encode_term_star, "
